@@ -477,6 +477,7 @@ func runC07(p *core.Prog, r *core.Report) {
 		}
 		r.Check(okIgn, "C07.R2", "FetchStoresState/full-over-partial", "a partial found for a unit already completed by a full snapshot is ignored", "state test not found", p.Pos(fn.Pos()))
 	})
+	r.GuardExact("C07.R2", "FetchStoresState/order", "fulls before partials", func() { checkFullsBeforePartials(p, r, "C07.R2") })
 
 	// ------------------------------------------------------------------ R3
 	r.Guard("C07.R3", "loaders", "load then assign", func() {
